@@ -26,6 +26,8 @@ pub mod c15;
 pub mod c16;
 #[cfg(feature = "full")]
 pub mod c17;
+#[cfg(feature = "full")]
+pub mod c18;
 
 pub fn build_info() -> String {
     let mut f: Vec<&str> = Vec::new();
@@ -69,6 +71,8 @@ pub fn subs(prop: &str) -> Vec<Box<dyn DynSub>> {
         "C16" => c16::subs(),
         #[cfg(feature = "full")]
         "C17" => c17::subs(),
+        #[cfg(feature = "full")]
+        "C18" => c18::subs(),
         _ => Vec::new(),
     }
 }
